@@ -109,7 +109,12 @@ class Transport(object):
         pass
 
     def getHost(self):
-        return Address(self.world.local_host, 50000 + self.connector.id)
+        # the first connection that comes up leaves from the configured local address; later ones may leave from another
+        # address of the host (an agent bound to the wildcard address, a second uplink): the agent's BGP identifier was
+        # derived once and must not follow them
+        if getattr(self, 'local', None) is None:
+            return Address(self.world.local_host, 50000 + self.connector.id)
+        return Address(self.local, 50000 + self.connector.id)
 
     def getPeer(self):
         return Address(self.connector.host, self.connector.port)
@@ -173,6 +178,7 @@ class World(object):
         self.local_host = local_host
         self.sock = FakeSocket()
         self._seq = 0
+        self.made = 0
 
     def next_seq(self):
         self._seq += 1
@@ -214,7 +220,10 @@ class World(object):
     def flush_threads(self):
         while self.thread_queue:
             f, a, kw = self.thread_queue.pop(0)
-            f(*a, **kw)
+            try:
+                f(*a, **kw)
+            except Exception as e:      # Twisted logs what a callFromThread callable raises and carries on
+                self.out(('reactor-error', type(e).__name__))
 
     def connect_ok(self, connector):
         assert connector.state == 'connecting'
@@ -222,6 +231,9 @@ class World(object):
         connector.state = 'connected'
         connector.protocol = p
         t = Transport(self, connector)
+        if self.made and '.' in str(self.local_host):
+            t.local = '10.77.%d.%d' % ((self.made // 250) % 250, 1 + self.made % 250)
+        self.made += 1
         connector.transport_obj = t
         if p is not None:
             p.makeConnection(t)
@@ -280,7 +292,12 @@ seconds = world.seconds
 
 
 def run():
-    raise RuntimeError('the stand-in reactor is driven by the harness')
+    # the stand-in reactor is driven by the harness: `reactor.run()` at the end of the agent's start-up returns at once
+    return None
+
+
+def getThreadPool():
+    return None
 
 
 def listenTCP(*a, **kw):
